@@ -846,6 +846,9 @@ Proof.
   - apply faulted_effect_rev_calm; assumption.
 Qed.
 
+Lemma typed_break_lock w : typed (k_st (w_core w)) -> typed (k_st (w_core (break_lock w))).
+Proof. intros H. exact H. Qed.
+
 (** helpers to establish the hypotheses on concrete storages *)
 Definition keys_of (st : storage) : list keyid :=
   flat_map (fun e => match e with ((_, _, FKey), VKey k) => [k] | _ => [] end) st.
